@@ -13,3 +13,5 @@ CONSTANTS
   CollOf <- CollOf3
   JoinLifts = FALSE
   StartAllFirst = TRUE
+  PChanOf <- PChanSame
+  InitRaises = TRUE
